@@ -459,6 +459,11 @@ def scene_recipes(tier, seed, scale):
     out.append({"kind": "toy_mcmc", "operators": ["hmc-adaptive"], "iterations": 16, "freq": 4, "use_acceptance_rate": True})
     out.append({"kind": "toy_mcmc", "operators": ["sliding", "scaler"], "iterations": 12, "freq": 4, "disable_adaptation": True})
     out.append({"kind": "toy_mcmc", "operators": ["hmc"], "iterations": 10, "freq": 3, "find_step_size": True})
+    # adaptation windows that close before a checkpoint; an operator listed twice
+    out.append({"kind": "toy_mcmc", "operators": ["hmc-dual"], "iterations": 16, "freq": 4, "adapt_start": 2, "adapt_end": 6})
+    out.append({"kind": "toy_mcmc", "operators": ["hmc-mass-adaptive"], "iterations": 16, "freq": 4, "adapt_start": 3, "adapt_end": 9})
+    out.append({"kind": "toy_mcmc", "operators": ["scaler", "sliding", "dirichlet"], "iterations": 24, "freq": 6, "dup_op": True})
+    out.append({"kind": "toy_mcmc", "operators": ["sliding", "hmc-adaptive", "scaler"], "iterations": 18, "freq": 5, "dup_op": True})
     out.append({"kind": "toy_mcmc", "operators": ["hmc-mass-adaptive"], "iterations": 12, "freq": 4, "find_step_size": True})
     # configurations the CLI emits
     clis = [
@@ -498,7 +503,7 @@ def scene_recipes(tier, seed, scale):
                         "mass_freq": rng.choice([2, 4, 10]), "mass_window": rng.bernoulli(0.15), "mass_swap": rng.choice([0, 0, 5, 8]), "use_acceptance_rate": rng.bernoulli(0.2),
                         "leap_steps": rng.randint(1, 5), "dim": rng.choice([1, 2, 3, 5]), "dtype": rng.choice(["float64", "float64", "float32"]),
                         "param_dtype": rng.choice(["default", "default", "torch.float64"]), "find_step_size": rng.bernoulli(0.15),
-                        "adapt_start": rng.choice([None, None, 3, 8]), "adapt_end": rng.choice([None, None, 12])})
+                        "adapt_start": rng.choice([None, None, 3, 8]), "adapt_end": rng.choice([None, None, 12]), "dup_op": rng.bernoulli(0.15)})
         elif u >= 0.95:
             from sim.scenelib import CLI_MODEL_VECTORS
 
